@@ -138,6 +138,16 @@ pub fn eval(c: &Case, obs: &mut Obs) -> Result<(), String> {
                 "mbi-load-fails"
             };
         }
+        'F' => {
+            if bytes.len() > 1 << 16 {
+                return Err("malformed case".into());
+            }
+            class = match mb2_model::fuzzdec::model_find(bytes) {
+                mb2_model::fuzzdec::Find::NoHeader => "image-without-header",
+                mb2_model::fuzzdec::Find::SomeErr => "!image-misaligned-or-truncated-header",
+                mb2_model::fuzzdec::Find::Found(..) => "image-decodes",
+            };
+        }
         'S' => {
             if bytes.len() != 16 || (le32(bytes, 4) != 0 && le32(bytes, 4) != 4) {
                 return Err("malformed case".into());
@@ -196,7 +206,7 @@ pub fn eval(c: &Case, obs: &mut Obs) -> Result<(), String> {
     let (n0, t0) = &answers[0];
     for (n, t) in &answers[1..] {
         if t != t0 {
-            return Err(format!("{} input: outcome differs between {n0} and {n}: {}", match c.kind { 'M' => "boot-information", 'S' => "basic-header", _ => "header" }, first_difference(t0, t)));
+            return Err(format!("{} input: outcome differs between {n0} and {n}: {}", match c.kind { 'M' => "boot-information", 'S' => "basic-header", 'F' => "image", _ => "header" }, first_difference(t0, t)));
         }
     }
     Ok(())
@@ -228,6 +238,15 @@ fn strategy_hdr(_: &Ctx) -> BoxedStrategy<Case> {
         Case { kind: 'H', region: Hex(region) }
     })
     .boxed()
+}
+
+fn strategy_find(ctx: &Ctx) -> BoxedStrategy<Case> {
+    super::c13::strategy(ctx).prop_map(|c| Case { kind: 'F', region: Hex(super::c13::buffer(&c)) }).boxed()
+}
+
+fn enumerate_find(ctx: &Ctx) -> Box<dyn Iterator<Item = Case>> {
+    // a tenth of C13's enumerated images
+    Box::new(super::c13::enumerate(ctx).step_by(10).map(|c| Case { kind: 'F', region: Hex(super::c13::buffer(&c)) }))
 }
 
 fn strategy_basic(_: &Ctx) -> BoxedStrategy<Case> {
@@ -285,6 +304,17 @@ pub fn subs() -> Vec<Box<dyn Sub>> {
             thorough: 200000,
             strategy: strategy_mbi,
             enumerate: Some(enumerate_small),
+            enum_exhaustive: false,
+            eval,
+        }),
+        Box::new(PropSub::<Case> {
+            name: "find",
+            rule: "images for find_header (generator and a tenth of the enumeration of C13: lengths around 0 and around the 8192-byte window, magics planted aligned / misaligned / straddling, stored lengths up to 2^32-1) searched inside the four servers; same differential oracle. Non-trivial = an image with a header or with a misaligned / truncated one; distinct by image hash",
+            profiles: Profiles::ReleaseOnly,
+            quick: 2000,
+            thorough: 100000,
+            strategy: strategy_find,
+            enumerate: Some(enumerate_find),
             enum_exhaustive: false,
             eval,
         }),
